@@ -28,9 +28,10 @@ V6P == <<32, 1>> \o Z12 \o <<0, 1>>     \* 2001::1   first bytes 0x20 0x01 = 32.
 V6Q == <<10, 0>> \o Z12 \o <<0, 1>>     \* a00::1    first bytes = 10.0...
 V6L == <<0, 0>> \o Z12 \o <<0, 1>>      \* ::1
 V6M == <<255, 2>> \o Z12 \o <<0, 1>>    \* ff02::1
+V6X == <<0, 0, 0, 0, 0, 0, 0, 0, 0, 0, 255, 255, 10, 0, 0, 1>>   \* ::ffff:10.0.0.1, the IPv4-mapped form of V4B: an IPv6 address
 
 Addrs4 == {V4A, V4B, V4C, V4Z, V4F}
-Addrs6 == {V6P, V6Q, V6L, V6M}
+Addrs6 == {V6P, V6Q, V6L, V6M, V6X}
 
 IsByte(x) == x \in 0..255
 IsAddr(a) == Len(a) \in {4, 16} /\ \A i \in 1..Len(a) : IsByte(a[i])
@@ -92,7 +93,7 @@ FlowSeq == <<
   Flow(20, V6M, V6M, 22,    6),
   Flow(21, V6P, V6L, 256,   17),
   Flow(22, V6Q, V6Q, 255,   6),
-  Flow(23, V6L, V6L, 443,   255),
+  Flow(23, V6X, V6L, 443,   255),
   Flow(24, V6M, V6P, 0,     0) >>
 
 NFlows == Len(FlowSeq)
